@@ -8,23 +8,23 @@ import Mathlib.Tactic
 /-!
 # C19 — find-snvs: depths and thresholds
 
-The property has two halves.
-
 **Depths.**  The statement wants `depths = base calls among the reads passing the configured filters`
-(`specDepth` below).  The code forwards the configured filters to `pysam.AlignmentFile.pileup` under keyword names
-pysam does not know, so they are ignored and the engine's defaults apply (model: `bamRegionDepths`).  Hence
-* `depths_config_independent` — the model's depths do not depend on the configuration at all (this *is* the defect);
-* `depths_monotone_in_filters` — monotone in every option, but only in the trivial sense of being constant;
-* `depths_eq_spec_partial` — the depths equal the specified ones exactly on the region where the engine's fixed read
-  filter coincides with the configured one, every base quality is ≥ 13 and no two buffered records share a read name;
-* `depths_ne_spec_witness` — machine-checked inputs outside that region on which they differ (one per cause);
-* `specDepth_monotone_in_filters` / `specDepth_filter_effect` — what "changes the depths accordingly" means for the
-  specification: turning a keep flag on / lowering the MAPQ threshold adds exactly the calls of the newly admitted reads.
+(`specDepth` below).  Since /repo commit 31c45d9 the configured filters are translated into pysam's `flag_filter` and
+`min_mapping_quality` (`engineCfgOf`); what remains between the code and the specification are pysam's engine defaults.
+* `enginePasses_engineCfgOf` — the engine's read filter is the configured one, plus "not secondary" and "not an orphan mate";
+* `depths_eq_spec_partial` — the depths are the specified ones whenever the fetched records contain no secondary
+  record, no orphan mate, no base quality below 13 and no two records with one read name;
+* `filter_option_effect` / `depths_monotone_in_filters` — on that region, admitting more reads (a keep flag turned on,
+  the MAPQ threshold lowered) adds exactly the calls of the newly admitted reads;
+* `depths_ne_spec_witness` — machine-checked inputs outside that region on which the depths differ (secondary,
+  base quality, orphan, overlapping mates): the four open findings;
+* `old_engine_regression` — the four repaired causes: with the old engine configuration (`pysamDefaults`, filters
+  ignored) the depths are wrong on inputs on which the current model is right;
+* `specDepth_monotone_in_filters` / `specDepth_filter_effect` — the same statements for the specification itself.
 
 **Thresholds.**  `keepAllele_iff`, `listed_iff_thresholds`, `emitted_iff_two`, `ref_first_masked_iff`, `alts_sorted`,
-`alts_nodup_complete` hold at full strength for `siteRecord` (the model of `write_vcf_block`).  Note that the code's
-population frequency is `np.mean` over *all* samples (NaN as soon as one sample has no depth), which `keepAllele_iff`
-makes explicit via `meanFreq`.
+`alts_nodup_complete` hold at full strength for `siteRecord` (the model of `write_vcf_block`).  The population frequency
+of `--maf` is the mean over the samples with reads (`nanMeanFreq`, /repo commit 6204576).
 -/
 set_option linter.unusedSimpArgs false
 set_option linter.unusedVariables false
@@ -51,17 +51,6 @@ def specDepth (cfg : FilterCfg) (reads : List Aln) (contig : String) (p : Nat) :
 def WeakerCfg (cfg cfg' : FilterCfg) : Prop :=
   cfg'.minQ ≤ cfg.minQ ∧ (cfg'.skipDup = true → cfg.skipDup = true) ∧ (cfg'.skipQc = true → cfg.skipQc = true) ∧
     (cfg'.skipSupp = true → cfg.skipSupp = true)
-
-/-- the candidate defect F7 as a theorem of the model: the configured filters have no effect whatsoever -/
-theorem depths_config_independent (cfg cfg' : FilterCfg) (bams : List (List Aln)) (contig : String) (start stop : Nat) :
-    bamRegionDepths cfg bams contig start stop = bamRegionDepths cfg' bams contig start stop := rfl
-
-/-- depths are monotone in each filter option — satisfied only because they are constant in them -/
-theorem depths_monotone_in_filters (cfg cfg' : FilterCfg) (_h : WeakerCfg cfg cfg') (bams : List (List Aln))
-    (contig : String) (start stop : Nat) (i j k : Nat) :
-    (((bamRegionDepths cfg bams contig start stop).getD i []).getD j []).getD k 0 ≤
-      (((bamRegionDepths cfg' bams contig start stop).getD i []).getD j []).getD k 0 := by
-  rw [depths_config_independent cfg cfg']
 
 theorem cfgPasses_mono {cfg cfg' : FilterCfg} (h : WeakerCfg cfg cfg') (a : Aln) (hp : cfgPasses cfg a = true) :
     cfgPasses cfg' a = true := by
@@ -206,22 +195,17 @@ theorem regionFetched_of_column {contig : String} {start stop p : Nat} (hp : sta
     · omega
     · omega
 
-/-- **partial correctness of the depths**: for every position of the region, the model's depths are the specified ones
-provided (i) on the records the region fetches the engine's read filter (`engineCfgOf cfg`, today a constant) decides
-like the configured one, (ii) every base quality reaches the engine's minimum (13), (iii) no two buffered records share a read name -/
-theorem depths_eq_spec_partial (cfg : FilterCfg) (bams : List (List Aln)) (contig : String) (start stop i : Nat)
-    (hi : i < stop - start)
-    (hfilt : ∀ reads ∈ bams, ∀ a ∈ reads, regionFetched contig start stop a = true →
-      enginePasses (engineCfgOf cfg) a = cfgPasses cfg a)
-    (hqual : ∀ reads ∈ bams, ∀ a ∈ reads,
-      a.qualList.length = a.seq.length ∧ ∀ q ∈ a.qualList, (engineCfgOf cfg).minBaseQ ≤ q)
+/-- the engine's depths are the specified ones when, on the fetched records, its read filter decides like the
+configured one, every base quality reaches its minimum and no two buffered records share a read name -/
+theorem regionDepthsE_eq_spec (e : EngineCfg) (cfg : FilterCfg) (bams : List (List Aln)) (contig : String)
+    (start stop i : Nat) (hi : i < stop - start)
+    (hfilt : ∀ reads ∈ bams, ∀ a ∈ reads, regionFetched contig start stop a = true → enginePasses e a = cfgPasses cfg a)
+    (hqual : ∀ reads ∈ bams, ∀ a ∈ reads, a.qualList.length = a.seq.length ∧ ∀ q ∈ a.qualList, e.minBaseQ ≤ q)
     (hname : ∀ reads ∈ bams,
-      ((reads.filter (fun a => regionFetched contig start stop a && enginePasses (engineCfgOf cfg) a)).map
-        Aln.qname).Nodup) :
-    (bamRegionDepths cfg bams contig start stop)[i]? =
+      ((reads.filter (fun a => regionFetched contig start stop a && enginePasses e a)).map Aln.qname).Nodup) :
+    (regionDepthsE e bams contig start stop)[i]? =
       some (bams.map (fun reads => specDepth cfg reads contig (start + i))) := by
-  unfold bamRegionDepths
-  simp only
+  unfold regionDepthsE
   rw [List.getElem?_map, List.getElem?_range hi]
   simp only [Option.map_some, Option.some.injEq]
   apply List.map_congr_left
@@ -241,13 +225,13 @@ theorem depths_eq_spec_partial (cfg : FilterCfg) (bams : List (List Aln)) (conti
       have hreg := regionFetched_of_column hp hc hf
       have hfe := hfilt reads hr a ha hreg
       obtain ⟨hlen, hq⟩ := hqual reads hr a ha
-      have hbase : columnBase (engineCfgOf cfg).minBaseQ a (start + i) = specBase a (start + i) := by
+      have hbase : columnBase e.minBaseQ a (start + i) = specBase a (start + i) := by
         unfold columnBase specBase
         simp only [hf, Option.bind_some]
         by_cases hlt : qr.1 < a.seq.length
         · have hlt' : qr.1 < a.qualList.length := by omega
           have hge : a.qualList[qr.1]? = some a.qualList[qr.1] := List.getElem?_eq_getElem hlt'
-          have h13 : (engineCfgOf cfg).minBaseQ ≤ a.qualList[qr.1] := hq _ (List.getElem_mem hlt')
+          have h13 : e.minBaseQ ≤ a.qualList[qr.1] := hq _ (List.getElem_mem hlt')
           simp only [List.getD_eq_getElem?_getD, hge, Option.getD_some, Nat.not_lt.mpr h13, if_false]
         · have : a.seq[qr.1]? = none := by simp [Nat.le_of_not_lt hlt]
           simp [this]
@@ -259,41 +243,203 @@ theorem depths_eq_spec_partial (cfg : FilterCfg) (bams : List (List Aln)) (conti
     have h2 : (a.contig == contig) = false := by simpa using hc
     simp [h1, h2]
 
-/-- **the engine differs from the specification** (one witness per cause; `AC` reference, region `[0, 1)`):
-MAPQ below the configured threshold is still counted; a kept duplicate / QC-fail record is still dropped; a
-supplementary record is counted although it is to be skipped; a base of quality 12, an orphan mate and a secondary
-record are dropped although no configured filter excludes them -/
+/-! ### the engine configuration the code builds -/
+
+theorem land_beq_zero_iff (f m : Nat) :
+    (f &&& m == 0) = true ↔ ∀ i, ¬ (f.testBit i = true ∧ m.testBit i = true) := by
+  rw [beq_iff_eq]
+  constructor
+  · rintro h i ⟨h1, h2⟩
+    have := congrArg (fun x => x.testBit i) h
+    simp [Nat.testBit_and, h1, h2] at this
+  · intro h
+    apply Nat.eq_of_testBit_eq
+    intro i
+    rw [Nat.testBit_and, Nat.zero_testBit]
+    cases h1 : f.testBit i <;> cases h2 : m.testBit i <;> simp
+    exact h i ⟨h1, h2⟩
+
+theorem testBit_engineMask (cfg : FilterCfg) (i : Nat) :
+    (engineCfgOf cfg).flagFilter.testBit i =
+      (decide (2 = i) || decide (8 = i) || (cfg.skipDup && decide (10 = i)) || (cfg.skipQc && decide (9 = i))
+        || (cfg.skipSupp && decide (11 = i))) := by
+  have t2 : Nat.testBit 4 i = decide (2 = i) := by
+    rw [show (4 : Nat) = 2 ^ 2 from by norm_num, Nat.testBit_two_pow]
+  have t8 : Nat.testBit 256 i = decide (8 = i) := by
+    rw [show (256 : Nat) = 2 ^ 8 from by norm_num, Nat.testBit_two_pow]
+  have t10 : Nat.testBit 1024 i = decide (10 = i) := by
+    rw [show (1024 : Nat) = 2 ^ 10 from by norm_num, Nat.testBit_two_pow]
+  have t9 : Nat.testBit 512 i = decide (9 = i) := by
+    rw [show (512 : Nat) = 2 ^ 9 from by norm_num, Nat.testBit_two_pow]
+  have t11 : Nat.testBit 2048 i = decide (11 = i) := by
+    rw [show (2048 : Nat) = 2 ^ 11 from by norm_num, Nat.testBit_two_pow]
+  unfold engineCfgOf
+  simp only [Nat.testBit_or]
+  cases cfg.skipDup <;> cases cfg.skipQc <;> cases cfg.skipSupp <;>
+    simp [t2, t8, t10, t9, t11, Nat.zero_testBit]
+
+/-- **the repaired translation**: the engine's read filter is the configured filter, and additionally drops
+secondary records and orphan mates (pysam defaults that the code leaves in place) -/
+theorem enginePasses_engineCfgOf (cfg : FilterCfg) (a : Aln) :
+    enginePasses (engineCfgOf cfg) a =
+      (cfgPasses cfg a && !a.isSecondary && !(a.isPaired && !a.isProperPair)) := by
+  have hmask : ((a.flag &&& (engineCfgOf cfg).flagFilter == 0) = true) ↔
+      (a.isUnmapped = false ∧ a.isSecondary = false ∧ (cfg.skipDup = true → a.isDuplicate = false) ∧
+        (cfg.skipQc = true → a.isQcfail = false) ∧ (cfg.skipSupp = true → a.isSupplementary = false)) := by
+    rw [land_beq_zero_iff]
+    simp only [testBit_engineMask, Aln.isUnmapped, Aln.isSecondary, Aln.isDuplicate, Aln.isQcfail,
+      Aln.isSupplementary]
+    constructor
+    · intro h
+      refine ⟨?_, ?_, ?_, ?_, ?_⟩
+      · have := h 2; simpa using this
+      · have := h 8; simpa using this
+      · intro hd; have := h 10; simpa [hd] using this
+      · intro hd; have := h 9; simpa [hd] using this
+      · intro hd; have := h 11; simpa [hd] using this
+    · rintro ⟨h2, h8, h10, h9, h11⟩ i ⟨hf, hm⟩
+      simp only [Bool.or_eq_true, Bool.and_eq_true, decide_eq_true_eq] at hm
+      rcases hm with (((rfl | rfl) | ⟨hd, rfl⟩) | ⟨hd, rfl⟩) | ⟨hd, rfl⟩
+      · rw [h2] at hf; cases hf
+      · rw [h8] at hf; cases hf
+      · rw [h10 hd] at hf; cases hf
+      · rw [h9 hd] at hf; cases hf
+      · rw [h11 hd] at hf; cases hf
+  have hq : (engineCfgOf cfg).minMapQ = cfg.minQ := rfl
+  have ho : (engineCfgOf cfg).ignoreOrphans = true := rfl
+  rw [Bool.eq_iff_iff]
+  unfold enginePasses cfgPasses
+  simp only [Bool.and_eq_true, hmask, hq, ho, decide_eq_true_eq, Bool.not_eq_true', Bool.true_and,
+    Bool.and_eq_false_imp]
+  constructor
+  · rintro ⟨⟨⟨h2, h8, h10, h9, h11⟩, hmq⟩, horph⟩
+    refine ⟨⟨⟨⟨⟨⟨h2, hmq⟩, ?_⟩, ?_⟩, ?_⟩, h8⟩, horph⟩
+    · intro hd; by_contra hs; exact absurd (h10 (by simpa using hs)) (by simp [hd])
+    · intro hd; by_contra hs; exact absurd (h9 (by simpa using hs)) (by simp [hd])
+    · intro hd; by_contra hs; exact absurd (h11 (by simpa using hs)) (by simp [hd])
+  · rintro ⟨⟨⟨⟨⟨⟨h2, hmq⟩, h10⟩, h9⟩, h11⟩, h8⟩, horph⟩
+    refine ⟨⟨⟨h2, h8, ?_, ?_, ?_⟩, hmq⟩, horph⟩
+    · intro hs; by_contra hd; exact absurd (h10 (by simpa using hd)) (by simp [hs])
+    · intro hs; by_contra hd; exact absurd (h9 (by simpa using hd)) (by simp [hs])
+    · intro hs; by_contra hd; exact absurd (h11 (by simpa using hd)) (by simp [hs])
+
+/-- the fetched records are free of what the engine still treats differently from the specification -/
+structure CleanRegion (bams : List (List Aln)) (contig : String) (start stop : Nat) : Prop where
+  /-- no secondary record, no orphan mate (paired but not a proper pair) -/
+  flags : ∀ reads ∈ bams, ∀ a ∈ reads, regionFetched contig start stop a = true →
+    a.isSecondary = false ∧ (a.isPaired = true → a.isProperPair = true)
+  /-- every base quality is at least 13 (and present for every base) -/
+  quals : ∀ reads ∈ bams, ∀ a ∈ reads, a.qualList.length = a.seq.length ∧ ∀ q ∈ a.qualList, 13 ≤ q
+  /-- no two fetched records share a read name -/
+  names : ∀ reads ∈ bams, ((reads.filter (regionFetched contig start stop)).map Aln.qname).Nodup
+
+/-- **partial correctness of the depths**: on a clean region the depths are, at every position and for every
+configuration, the base calls among the reads passing the configured filters -/
+theorem depths_eq_spec_partial (cfg : FilterCfg) (bams : List (List Aln)) (contig : String) (start stop i : Nat)
+    (hi : i < stop - start) (hc : CleanRegion bams contig start stop) :
+    (bamRegionDepths cfg bams contig start stop)[i]? =
+      some (bams.map (fun reads => specDepth cfg reads contig (start + i))) := by
+  unfold bamRegionDepths
+  apply regionDepthsE_eq_spec _ cfg _ _ _ _ _ hi
+  · intro reads hr a ha hreg
+    obtain ⟨hs, ho⟩ := hc.flags reads hr a ha hreg
+    rw [enginePasses_engineCfgOf, hs]
+    cases hp : a.isPaired
+    · simp
+    · simp [ho hp]
+  · exact hc.quals
+  · intro reads hr
+    refine List.Nodup.sublist (List.Sublist.map _ ?_) (hc.names reads hr)
+    apply List.monotone_filter_right
+    intro a h
+    simp only [Bool.and_eq_true] at h
+    exact h.1
+
+/-- **what a filter option changes**: on a clean region, for a configuration `cfg'` that admits at least the reads of
+`cfg` (keep flags turned on, MAPQ threshold lowered), both depth tensors are the specified ones and they differ, per
+BAM and nucleotide, exactly by the calls of the reads `cfg'` admits and `cfg` does not -/
+theorem filter_option_effect {cfg cfg' : FilterCfg} (h : WeakerCfg cfg cfg') (bams : List (List Aln)) (contig : String)
+    (start stop i : Nat) (hi : i < stop - start) (hc : CleanRegion bams contig start stop) :
+    (bamRegionDepths cfg bams contig start stop)[i]? =
+        some (bams.map (fun reads => specDepth cfg reads contig (start + i))) ∧
+      (bamRegionDepths cfg' bams contig start stop)[i]? =
+        some (bams.map (fun reads => specDepth cfg' reads contig (start + i))) ∧
+      ∀ reads k, k < 4 →
+        (specDepth cfg' reads contig (start + i)).getD k 0 =
+          (specDepth cfg reads contig (start + i)).getD k 0 +
+            (reads.filter (fun a => (a.contig == contig && cfgPasses cfg' a) &&
+              !(a.contig == contig && cfgPasses cfg a))).countP (fun a => specBase a (start + i) == some k) :=
+  ⟨depths_eq_spec_partial cfg bams contig start stop i hi hc,
+   depths_eq_spec_partial cfg' bams contig start stop i hi hc,
+   fun reads k hk => specDepth_filter_effect h reads contig (start + i) k hk⟩
+
+/-- on a clean region the depths are monotone in every filter option -/
+theorem depths_monotone_in_filters {cfg cfg' : FilterCfg} (h : WeakerCfg cfg cfg') (bams : List (List Aln))
+    (contig : String) (start stop i : Nat) (hi : i < stop - start) (hc : CleanRegion bams contig start stop)
+    (j k : Nat) (hk : k < 4) :
+    (((bamRegionDepths cfg bams contig start stop).getD i []).getD j []).getD k 0 ≤
+      (((bamRegionDepths cfg' bams contig start stop).getD i []).getD j []).getD k 0 := by
+  obtain ⟨h1, h2, _⟩ := filter_option_effect h bams contig start stop i hi hc
+  simp only [List.getD_eq_getElem?_getD, h1, h2, Option.getD_some, List.getElem?_map]
+  cases hb : bams[j]? with
+  | none => simp
+  | some reads =>
+    simp only [Option.map_some, Option.getD_some]
+    have := specDepth_monotone_in_filters h reads contig (start + i) k hk
+    simpa [List.getD_eq_getElem?_getD] using this
+
+/-- **the engine still differs from the specification** (open findings; `AC` reference, region `[0, 1)`, default
+configuration): a secondary record, a base of quality 12 and an orphan mate are dropped although no configured filter
+excludes them, and two overlapping mates that agree are counted once -/
 theorem depths_ne_spec_witness :
-    let rd (flag mapq q : Nat) : Aln :=
-      { qname := "r", contig := "c", flag := flag, mapq := mapq, pos := 0, cigar := [(2, .M)], seq := ['A', 'C'],
-        quals := some [q, q], rg := some "g", refBases := some ['A', 'C'] }
-    -- mapq-ignored
-    (bamRegionDepths {} [[rd 0 0 30]] "c" 0 1 = [[[1, 0, 0, 0]]] ∧ specDepth {} [rd 0 0 30] "c" 0 = [0, 0, 0, 0]) ∧
-    -- keep-duplicates-ignored
-    (bamRegionDepths { skipDup := false } [[rd 0x400 60 30]] "c" 0 1 = [[[0, 0, 0, 0]]] ∧
-      specDepth { skipDup := false } [rd 0x400 60 30] "c" 0 = [1, 0, 0, 0]) ∧
-    -- keep-qcfail-ignored
-    (bamRegionDepths { skipQc := false } [[rd 0x200 60 30]] "c" 0 1 = [[[0, 0, 0, 0]]] ∧
-      specDepth { skipQc := false } [rd 0x200 60 30] "c" 0 = [1, 0, 0, 0]) ∧
-    -- supplementary-not-dropped
-    (bamRegionDepths {} [[rd 0x800 60 30]] "c" 0 1 = [[[1, 0, 0, 0]]] ∧ specDepth {} [rd 0x800 60 30] "c" 0 = [0, 0, 0, 0]) ∧
-    -- baseq13-dropped
-    (bamRegionDepths {} [[rd 0 60 12]] "c" 0 1 = [[[0, 0, 0, 0]]] ∧ specDepth {} [rd 0 60 12] "c" 0 = [1, 0, 0, 0]) ∧
-    -- orphans-dropped
-    (bamRegionDepths {} [[rd 0x41 60 30]] "c" 0 1 = [[[0, 0, 0, 0]]] ∧ specDepth {} [rd 0x41 60 30] "c" 0 = [1, 0, 0, 0]) ∧
+    let rd (flag q : Nat) (mpos isize : Int) : Aln :=
+      { qname := "r", contig := "c", flag := flag, mapq := 60, pos := 0, cigar := [(2, .M)], seq := ['A', 'C'],
+        quals := some [q, q], rg := some "g", refBases := some ['A', 'C'], mpos := mpos, isize := isize }
     -- secondary-dropped
-    (bamRegionDepths {} [[rd 0x100 60 30]] "c" 0 1 = [[[0, 0, 0, 0]]] ∧ specDepth {} [rd 0x100 60 30] "c" 0 = [1, 0, 0, 0]) := by
+    (bamRegionDepths {} [[rd 0x100 30 (-1) 0]] "c" 0 1 = [[[0, 0, 0, 0]]] ∧
+      specDepth {} [rd 0x100 30 (-1) 0] "c" 0 = [1, 0, 0, 0]) ∧
+    -- baseq13-dropped
+    (bamRegionDepths {} [[rd 0 12 (-1) 0]] "c" 0 1 = [[[0, 0, 0, 0]]] ∧ specDepth {} [rd 0 12 (-1) 0] "c" 0 = [1, 0, 0, 0]) ∧
+    -- orphans-dropped
+    (bamRegionDepths {} [[rd 0x41 30 (-1) 0]] "c" 0 1 = [[[0, 0, 0, 0]]] ∧
+      specDepth {} [rd 0x41 30 (-1) 0] "c" 0 = [1, 0, 0, 0]) ∧
+    -- overlapping-mates-merged
+    (bamRegionDepths {} [[rd 0x63 30 0 2, rd 0x93 30 0 (-2)]] "c" 0 1 = [[[1, 0, 0, 0]]] ∧
+      specDepth {} [rd 0x63 30 0 2, rd 0x93 30 0 (-2)] "c" 0 = [2, 0, 0, 0]) := by
+  decide
+
+/-- **regression statements for the repaired causes**: under the old engine configuration (`pysamDefaults`: the
+configured filters never reached the pileup) MAPQ 0 was counted, a kept duplicate / QC-fail record was dropped and a
+supplementary record was counted; the current model returns the specified depths on the same inputs -/
+theorem old_engine_regression :
+    let rd (flag mapq : Nat) : Aln :=
+      { qname := "r", contig := "c", flag := flag, mapq := mapq, pos := 0, cigar := [(2, .M)], seq := ['A', 'C'],
+        quals := some [30, 30], rg := some "g", refBases := some ['A', 'C'] }
+    -- mapq-ignored
+    (regionDepthsE pysamDefaults [[rd 0 0]] "c" 0 1 = [[[1, 0, 0, 0]]] ∧ specDepth {} [rd 0 0] "c" 0 = [0, 0, 0, 0] ∧
+      bamRegionDepths {} [[rd 0 0]] "c" 0 1 = [[[0, 0, 0, 0]]]) ∧
+    -- keep-duplicates-ignored
+    (regionDepthsE pysamDefaults [[rd 0x400 60]] "c" 0 1 = [[[0, 0, 0, 0]]] ∧
+      specDepth { skipDup := false } [rd 0x400 60] "c" 0 = [1, 0, 0, 0] ∧
+      bamRegionDepths { skipDup := false } [[rd 0x400 60]] "c" 0 1 = [[[1, 0, 0, 0]]]) ∧
+    -- keep-qcfail-ignored
+    (regionDepthsE pysamDefaults [[rd 0x200 60]] "c" 0 1 = [[[0, 0, 0, 0]]] ∧
+      specDepth { skipQc := false } [rd 0x200 60] "c" 0 = [1, 0, 0, 0] ∧
+      bamRegionDepths { skipQc := false } [[rd 0x200 60]] "c" 0 1 = [[[1, 0, 0, 0]]]) ∧
+    -- supplementary-not-dropped
+    (regionDepthsE pysamDefaults [[rd 0x800 60]] "c" 0 1 = [[[1, 0, 0, 0]]] ∧ specDepth {} [rd 0x800 60] "c" 0 = [0, 0, 0, 0] ∧
+      bamRegionDepths {} [[rd 0x800 60]] "c" 0 1 = [[[0, 0, 0, 0]]]) := by
   decide
 
 /-! ## thresholds -/
 
 /-- the `keep` mask, spelled out: enough individuals meet `--ind-maf` and `--ind-mad`, and (when `--maf > 0`) the mean
-sample frequency over *all* samples is defined and reaches `--maf`, and (when `--mad > 0`) the population depth reaches
+frequency among the samples with reads is defined and reaches `--maf`, and (when `--mad > 0`) the population depth reaches
 `--mad` -/
 theorem keepAllele_iff (t : Thresh) (ds : List (List Nat)) (a : Nat) :
     keepAllele t ds a = true ↔
       t.minInd ≤ (ds.countP (fun d => indOk t d a) : Int) ∧
-        (0 < t.maf → ∃ m, meanFreq ds a = some m ∧ t.maf ≤ m) ∧
+        (0 < t.maf → ∃ m, nanMeanFreq ds a = some m ∧ t.maf ≤ m) ∧
         (0 < t.mad → t.mad ≤ (popDepth ds a : Int)) := by
   unfold keepAllele
   simp only [Bool.and_eq_true, decide_eq_true_eq]
@@ -302,7 +448,7 @@ theorem keepAllele_iff (t : Thresh) (ds : List (List Nat)) (a : Nat) :
     refine ⟨h1, ?_, ?_⟩
     · intro hm
       simp only [hm, if_true] at h2
-      cases hmf : meanFreq ds a with
+      cases hmf : nanMeanFreq ds a with
       | none => simp [hmf] at h2
       | some m => exact ⟨m, rfl, by simpa [hmf] using h2⟩
     · intro hm; simpa [hm] using h3
